@@ -118,7 +118,7 @@ def run_stagger_case(case):
             await world.spawn(session(), "s0")
             peer.close()
             await asyncio.sleep(1)
-            await asyncio.wait_for(server.close(), 1e4)
+            await common.close_server(server)
 
         async def session():
             await peer.connect()
@@ -248,7 +248,7 @@ def run_slowcall_case(case):
                 await world.spawn(session(), "s0")
                 peer.close()
                 await asyncio.sleep(2)
-                await asyncio.wait_for(server.close(), 1e4)
+                await common.close_server(server)
 
             world.run(main())
             if world.outcome not in ("ok", "budget", "deadlock"):
